@@ -116,7 +116,7 @@ fn check_inner(pattern: &str, text: &str) -> Option<String> {
         }
     }
     // C09 under a configured backtrack limit: the three entry points run the same search, so they agree on Ok / Err too
-    for bl in [1usize, 3, 30] {
+    for bl in [1usize, 3, 30, usize::MAX] {
         if let Ok(rl) = fancy_regex::RegexBuilder::new(pattern).backtrack_limit(bl).build() {
             let f = rl.find(text).map(|m| m.map(|m| (m.start(), m.end()))).map_err(|_| ());
             let i = rl.is_match(text).map_err(|_| ());
